@@ -27,6 +27,7 @@ from fdtdx.materials import (
     compute_allowed_magnetic_conductivities,
     compute_allowed_permeabilities,
     compute_allowed_permittivities,
+    validate_dispersive_courant_stability,
     validate_dispersive_divisor_stability,
 )
 from fdtdx.objects.boundaries.bloch import BlochBoundary
@@ -1172,6 +1173,13 @@ def _init_arrays(
     # update_E computes.
     if objects.has_dispersive_edot:
         validate_dispersive_divisor_stability(
+            _collect_labeled_materials(objects),
+            dt=config.time_step_duration,
+            courant_factor=config.courant_factor,
+        )
+    # Lorentz/Drude (and CCPR) poles also lower the Courant limit of the coupled update.
+    if num_dispersive_poles > 0:
+        validate_dispersive_courant_stability(
             _collect_labeled_materials(objects),
             dt=config.time_step_duration,
             courant_factor=config.courant_factor,
